@@ -25,6 +25,7 @@ import (
 	"net/http"
 	"net/http/httptest"
 	"os"
+	"sort"
 	"strings"
 	"sync"
 
@@ -156,6 +157,10 @@ func facMechanism(base string, decl map[string]any) (string, map[string]any, err
 		}}, nil
 	case "eh/default":
 		return "error_handlers", map[string]any{"id": id, "type": "default"}, nil
+	case "eh/www_authenticate":
+		return "error_handlers", map[string]any{"id": id, "type": "www_authenticate", "config": map[string]any{
+			"realm": "base",
+		}}, nil
 	}
 
 	return "", nil, fmt.Errorf("catalogue: unsupported %s/%s", kind, typ)
@@ -500,7 +505,25 @@ func facProbe(repo rule.Repository, method, path string, authnOK, skip bool) map
 	res["ret"] = facErrKind(err)
 	res["perr"] = facErrKind(ctx.PipelineError())
 	res["fin"] = append([]string{}, ctx.UpstreamHeaders().Values("X-Fin")...)
+	res["hdr"] = facOtherHeaders(ctx.UpstreamHeaders())
 	res["upstream"] = be != nil
+
+	return res
+}
+
+// facOtherHeaders: what the pipeline has set for the upstream besides the finalizers' common header, as sorted
+// "Name=value[,value]" entries (header finalizers with a rule level `headers` setting, the challenge of a
+// www_authenticate error handler)
+func facOtherHeaders(h http.Header) []string {
+	res := []string{}
+
+	for name, values := range h {
+		if name != "X-Fin" {
+			res = append(res, name+"="+strings.Join(values, ","))
+		}
+	}
+
+	sort.Strings(res)
 
 	return res
 }
